@@ -34,5 +34,63 @@ pub const EXTRA: &[(&str, &str)] = &[
 ];
 
 pub fn extra_programs(_tier: Tier) -> Vec<(String, String)> {
-    EXTRA.iter().map(|(n, c)| (format!("extra:{n}"), c.to_string())).collect()
+    let mut v: Vec<(String, String)> = EXTRA.iter().map(|(n, c)| (format!("extra:{n}"), c.to_string())).collect();
+    v.extend(divergence_family());
+    v
+}
+
+/// Divergence placement: every diverging form (panic, return, never-typed call, match on an empty enum, break,
+/// continue, endless loop) in every expression position (let initialiser, either operand, call argument,
+/// condition, one arm, match arm, struct member, array element, tuple member, loop condition, block tail after a
+/// call).  Unreachable-code handling in lowering and the back end is only exercised by such programs; each
+/// either gets an error diagnostic or must compile and behave identically under every configuration.
+pub fn divergence_family() -> Vec<(String, String)> {
+    const PRELUDE: &str = "#[derive(Drop, Copy)]\nenum Never {}\n#[derive(Drop, Copy)]\nstruct S { a: u8, b: u8 }\n#[inline(never)]\nfn g(x: u8, y: u8) -> u8 { x / 2 + y / 2 }\n#[inline(never)]\nfn nv(a: u8) -> core::never { core::panic_with_felt252('nv') }\n#[inline(never)]\nfn opt(a: u8) -> Option<Never> { if a == 255 { Option::None } else { Option::None } }\n";
+    // (name, diverging expression; `n` is a value of type Never where available)
+    let forms: &[(&str, &str, bool)] = &[
+        ("panic", "core::panic_with_felt252('d')", false),
+        ("return", "{ return 9; }", false),
+        ("never-call", "nv(a)", false),
+        ("block-panic", "{ let t = g(a, 3); core::panic_with_felt252(t.into()) }", false),
+        ("match-never", "match n {}", true),
+        ("call-then-match-never", "{ let t = g(g(a, 1), g(a, 2)); let _u = t + 1; match n {} }", true),
+    ];
+    let positions: &[(&str, &str)] = &[
+        ("let", "let x: u8 = $; x"),
+        ("rhs", "a / 2 + $"),
+        ("lhs", "$ + a / 2"),
+        ("arg1", "g(a, $)"),
+        ("arg0", "g($, a)"),
+        ("cond", "if $ { 1 } else { 2 }"),
+        ("arm", "if a == 7 { $ } else { a }"),
+        ("match-arm", "match a { 0 => $, _ => a }"),
+        ("member", "let s = S { a: $, b: 1 }; s.b"),
+        ("element", "let arr = array![a, $]; arr.len().try_into().unwrap()"),
+        ("tuple", "let (p, _q) = (a, $); p"),
+        ("while-cond", "let mut i = 0_u8; while $ { i += 1; } i"),
+        ("after-call", "let t = g(a, 5); if t == 3 { $ } else { t }"),
+        ("in-loop", "let mut i = 0_u8; loop { if i == a % 4 { break; } if i == 2 { $; } i += 1; } i"),
+    ];
+    let mut out = vec![];
+    for (fn_, fe, needs_never) in forms {
+        for (pn, pe) in positions {
+            let body = pe.replace('$', &format!("({fe})"));
+            let code = if *needs_never {
+                format!("{PRELUDE}fn f(a: u8) -> u8 {{ match opt(a) {{ Option::Some(n) => {{ {body} }}, Option::None => a / 3 }} }}\n")
+            } else {
+                format!("{PRELUDE}fn f(a: u8) -> u8 {{ {body} }}\n")
+            };
+            out.push((format!("extra:diverge:{fn_}:{pn}"), code));
+        }
+    }
+    // loop-only forms
+    for (fn_, fe) in [("break", "{ break; }"), ("continue", "{ continue; }"), ("break-value", "{ break 5_u8; }")] {
+        for (pn, pe) in [("let", "let x: u8 = $; x"), ("rhs", "a / 2 + $"), ("arg1", "g(a, $)"), ("arm", "if i == 3 { $ } else { i }"), ("member", "let s = S { a: $, b: 1 }; s.b")] {
+            let body = pe.replace('$', &format!("({fe})"));
+            let tail = if fn_ == "break-value" { "" } else { "; i" };
+            let code = format!("{PRELUDE}fn f(a: u8) -> u8 {{ let mut i = 0_u8; loop {{ i += 1; if i == a % 5 + 4 {{ break{}; }} let _y: u8 = {{ {body} }}; }}{tail} }}\n", if fn_ == "break-value" { " i" } else { "" });
+            out.push((format!("extra:diverge:{fn_}:{pn}"), code));
+        }
+    }
+    out
 }
